@@ -883,6 +883,9 @@ func (fr *frame) enterLoop(li *loopInfo, h *ssa.BasicBlock, pre *state, enter st
 	}
 	hc := c.declConst(fmt.Sprintf("%sat_b%d", fr.prefix, h.Index), "Bool")
 	fr.cond[h] = hc
+	// the header is only reached (in any iteration) after the loop was entered: values computed before the
+	// loop are immutable, so everything known on the entry edges still holds
+	c.assume(implies(hc, enter))
 	vc.guard = hc
 	for _, phi := range phis {
 		n := fr.name(phi)
